@@ -557,8 +557,12 @@ func flattener(flattenList cty.Value) ([]cty.Value, []cty.ValueMarks, bool) {
 
 		// Any dynamic types could result in more collections that need to be
 		// flattened, so the type cannot be known.
-		if val == cty.DynamicVal {
+		if unmarkedVal, valMarks := val.Unmark(); unmarkedVal == cty.DynamicVal {
 			isKnown = false
+			if len(valMarks) > 0 {
+				// the unknown result stands for this element too
+				markses = append(markses, valMarks)
+			}
 		}
 
 		if !val.IsNull() && (val.Type().IsListType() || val.Type().IsSetType() || val.Type().IsTupleType()) {
